@@ -694,9 +694,42 @@ func (lc *laCtx) sumBelowLen(in ssa.Instruction, x, vv ssa.Value, c int64, stric
 			}
 		}
 	}
-	// the value was advanced after the guard: v = w + k where the guard speaks about w (i += 2 after `i+1 < n`)
-	if phi, ok := stripConv(vv).(*ssa.Phi); ok {
-		_ = phi
+	// both the sequence and the position are parameters of a private function: every caller guarantees it
+	// (a block that read input[i+1:...] under `i+1 < len(input)` and was moved into a helper(input, i))
+	if px, okx := stripConv(x).(*ssa.Parameter); okx && lc.p != nil {
+		base := stripConv(vv)
+		if b, ok := base.(*ssa.BinOp); ok && b.Op == token.ADD {
+			if _, isC := constInt(b.Y); isC {
+				base = stripConv(b.X)
+			}
+		}
+		if pv, okv := base.(*ssa.Parameter); okv && px.Parent() == pv.Parent() {
+			fn := px.Parent()
+			ix, iv := -1, -1
+			for i, q := range fn.Params {
+				if q == px {
+					ix = i
+				}
+				if q == pv {
+					iv = i
+				}
+			}
+			sites := lc.p.staticCallSites(fn)
+			if ix >= 0 && iv >= 0 && len(sites) > 0 && fn.Object() != nil && !fn.Object().Exported() {
+				all := true
+				for _, cs := range sites {
+					sub := &laCtx{p: lc.p, fn: cs.Parent()}
+					args := cs.Common().Args
+					// c already includes any constant folded out of vv above
+					if ok, _ := sub.sumBelowLen(cs, args[ix], args[iv], c, strict); !ok {
+						all = false
+					}
+				}
+				if all {
+					return true, fmt.Sprintf("all %d call sites guarantee it", len(sites))
+				}
+			}
+		}
 	}
 	return false, fmt.Sprintf("no dominating fact gives %s + %d %s len(%s)", v, c, map[bool]string{true: "<", false: "<="}[strict], Expr(x))
 }
